@@ -185,7 +185,12 @@ def _tokenize_pattern(pat):
                 toks.append(("opt", _tokenize_pattern(inner)))
                 i = j + 1
                 continue
-            raise ExtractError("macro pattern: only `$( .. )?` groups are supported")
+            mtt = re.match(r"\s*\$(\w+)\s*:\s*tt\s*$", inner)
+            if j < n and pat[j] == "*" and mtt:
+                toks.append(("rest", mtt.group(1)))      # `$($x:tt)*` : the rest of the invocation, raw
+                i = j + 1
+                continue
+            raise ExtractError("macro pattern: only `$( .. )?` and `$($x:tt)*` groups are supported")
         m = re.compile(r"\$(\w+)\s*:\s*(\w+)").match(pat, i)
         if m:
             toks.append(("frag", m.group(1), m.group(2)))
@@ -246,6 +251,9 @@ def _match_tokens(toks, text, pos, bind):
                     return None
                 bind[name] = val
                 pos = j
+        elif t[0] == "rest":
+            bind[t[1]] = text[pos:].strip()
+            pos = n
         elif t[0] == "opt":
             b2 = dict(bind)
             p2 = _match_tokens(t[1], text, pos, b2)
@@ -261,6 +269,8 @@ def _match_tokens(toks, text, pos, bind):
 def _frag_names(toks):
     out = []
     for t in toks:
+        if t[0] == "rest":
+            out.append(t[1])
         if t[0] == "frag":
             out.append(t[1])
         elif t[0] == "opt":
@@ -312,6 +322,9 @@ def instantiate_macro(text, name, inv_args, path):
             i = e + 1 + mm.end()
         return "".join(out)
 
+    for t_ in toks:
+        if t_[0] == "rest":
+            body = re.sub(r"\$\(\s*\$%s\s*\)\s*\*" % t_[1], (bind.get(t_[1]) or "").replace("\\", "\\\\"), body)
     body = expand_groups(body)
     for p_, v in bind.items():
         if v is None:
@@ -792,6 +805,7 @@ class ImplSpec:
         self.nested = {}
         self.sigrewrites = []
         self.lazy = None
+        self.asfree = set()
 
 
 def apply_contract(sig, clauses, ret="r"):
@@ -931,7 +945,11 @@ def process_fn(fn, spec, handle, stats, canary):
             stats["R1"] += 1
     for (expr, why) in spec.assumes.get(name, []):
         e2 = replace_self(expr) if (by_value and not handle) else expr
-        body = "\n    assume(%s); // ASSUMPTION: %s\n" % (e2, why) + body
+        pre_ = "\n    let mut self_ = self;"
+        if body.startswith(pre_):
+            body = pre_ + "\n    assume(%s); // ASSUMPTION: %s\n" % (e2, why) + body[len(pre_):]
+        else:
+            body = "\n    assume(%s); // ASSUMPTION: %s\n" % (e2, why) + body
     if handle and re.search(r"(?<![\w])Observer::<", body):
         body = re.sub(r"(?<![\w])Observer::<", "HObserver::<", body)   # R7: explicit trait paths
         stats["R7"] += 1
@@ -1128,6 +1146,28 @@ def extract_impl(path, header_lit, macro, args, handle, spec, stats, canary):
             out.append("%s\n%s;" % (dsig, dtext.rstrip().rstrip(",")))
             continue
         seen.add(it["name"])
+        if it["name"] in spec.asfree:
+            # the method is checked as a FREE function over the same text (receiver `self` becomes the
+            # parameter `self_`): used where Verus restricts the trait impl itself (Drop::drop)
+            fsig = drop_attrs_and_docs(it["sig"])
+            fsig = re.sub(r"\(\s*&\s*mut\s+self\s*([,)])", r"(self_: &mut %s\1" % selfty.replace("\\", "\\\\"), fsig, count=1)
+            fsig = re.sub(r"\(\s*&\s*self\s*([,)])", r"(self_: &%s\1" % selfty.replace("\\", "\\\\"), fsig, count=1)
+            fsig = re.sub(r"\(\s*(mut\s+)?self\s*([,)])", r"(self_: %s\2" % selfty.replace("\\", "\\\\"), fsig, count=1)
+            fname_ = "free__%s__%s" % (re.sub(r"\W+", "_", selfty)[:40], it["name"])
+            fsig = re.sub(r"\bfn\s+%s\b" % it["name"], "fn " + fname_, fsig)
+            if gen:
+                fsig = re.sub(r"(fn\s+\w+)", r"\1<%s>" % gen, fsig, count=1)
+            fb = replace_self(rewrite_map_or(it["body"], stats))
+            cl_ = [replace_self(c) for c in spec.fn.get(it["name"], [])]
+            for (expr, why) in spec.assumes.get(it["name"], []):
+                fb = "\n    assume(%s); // ASSUMPTION: %s\n" % (replace_self(expr), why) + fb
+            if canary and it["name"] not in spec.canary_skip:
+                fb = "\n    assert(false); // CANARY\n" + fb
+            fsig, ctext = apply_contract(fsig, cl_, spec.ret.get(it["name"], "r"))
+            wh = ("\nwhere " + where) if where else ""
+            silent_out.append("%s%s\n%s\n{%s}\n" % (fsig, wh, ctext, fb))
+            stats["asfree"] = stats.get("asfree", 0) + 1
+            continue
         if it["name"] in spec.skipfn or (spec.only is not None and it["name"] not in spec.only):
             continue
         out.append(process_fn(it, spec, handle, stats, canary))
@@ -1173,6 +1213,9 @@ def extract_impl(path, header_lit, macro, args, handle, spec, stats, canary):
         if fname not in seen:
             raise ExtractError("method %s not found in impl %s" % (fname, header_lit))
     out.append("}\n")
+    fn_names = [it["name"] for it in items if it["kind"] == "fn"]
+    if fn_names and all(nm in spec.asfree for nm in fn_names):
+        return "\n".join(silent_out)
     return "\n".join(out) + "\n" + "\n".join(silent_out)
 
 
@@ -1345,6 +1388,9 @@ def generate(template_path, variant, canary=False):
                     for x in t[2:]:
                         if x.startswith("ret="):
                             spec.ret[t[1]] = x[4:]
+                elif t[0] == "@@asfree":
+                    spec.asfree.update(t[1:])
+                    i += 1
                 elif t[0] == "@@lazyclosures":
                     spec.lazy = t[1]
                     i += 1
